@@ -193,7 +193,7 @@ func c04Coq(cs *c04Case) string {
 		}
 		dls[i] = "(" + d.Sel.coq() + ", " + res + ")"
 	}
-	return fmt.Sprintf("{| bc_files := [%s]; bc_keys := %s; bc_skip := %v; bc_E := 1000%%nat; bc_up_ok := %v; bc_entries := [%s]; bc_index_sizes := [%s]%%nat; bc_count := %d%%N; bc_downloads := [%s] |}",
+	return fmt.Sprintf("{| bc_files := [%s]; bc_keys := %s; bc_skip := %v; bc_E := defaultBundleEntriesPerFile; bc_up_ok := %v; bc_entries := [%s]; bc_index_sizes := [%s]%%nat; bc_count := %d%%N; bc_downloads := [%s] |}",
 		strings.Join(files, "; "), keys, cs.Skip, cs.UpOk, strings.Join(es, "; "), strings.Join(sizes, ";"), cs.Count, strings.Join(dls, "; "))
 }
 
@@ -267,7 +267,7 @@ func c04Sels(r *gen.Rand, files []world.File) []c04Sel {
 
 func init() {
 	props["C04"] = func(c *Ctx) {
-		c.Header = "From Coq Require Import List String NArith.\nFrom DM Require Import Model.Meta Model.Bundle Model.BundleCheck.\nImport ListNotations.\nOpen Scope list_scope."
+		c.Header = "From Coq Require Import List String NArith.\nFrom DM Require Import Gen.Consts Model.Meta Model.Bundle Model.BundleCheck.\nImport ListNotations.\nOpen Scope list_scope."
 		c.CaseTy = "bcase"
 		c.Report = "report"
 		c.PerFile = 6
